@@ -720,3 +720,93 @@ def sym_unbound_reads(instrs, exempt, unroll=2, entry=0, macros=False, only=None
         hit = [(nd[0], nm) for nd, nm, v in viol if z3.is_true(m.eval(v, model_completion=True))]
         info = dict(lookups=hit[:4], choices={str(d): bool(m[d]) for d in m.decls()})
     return str(r), info, dt, stats
+
+
+# ---------------------------------------------------------------------------------------------
+# Macro prologue: which value ends up in which parameter (C03: defaults and keyword arguments)
+# ---------------------------------------------------------------------------------------------
+
+def macro_params(instrs, build_pc):
+    """Parameter names of the macro built at build_pc (the LoadConst right before BuildMacro)."""
+    a = instrs[build_pc - 1]
+    return list(a['arg']) if a['op'] == 'LoadConst' and isinstance(a.get('arg'), list) else None
+
+
+def sym_macro_prologue(instrs, entry, params, expected_defaults):
+    """Symbolic execution of a macro body's prologue on the real instruction stream.  On entry the operand
+    stack holds one value per parameter (last parameter on top); whether the caller provided argument i is a
+    free boolean: the value is ARG_i or undefined.  Values are integers: 0 = undefined, 100+i = ARG_i, one id
+    per distinct constant / looked-up name.  The query asks z3 whether SOME combination of provided/omitted
+    arguments stores into a parameter anything but `ARG_i if provided else its own default`.
+    expected_defaults: {param: ('const', value) | ('name', ident) | None}.
+    Returns (verdict, info, seconds, stats)."""
+    k = len(params)
+    provided = [z3.Bool('provided_%s' % p) for p in params]
+    ids = {}
+    def vid(kind, x):
+        key = (kind, json.dumps(x, sort_keys=True))
+        if key not in ids:
+            ids[key] = 1000 + len(ids)
+        return ids[key]
+    stack0 = [('int', z3.If(provided[i], z3.IntVal(100 + i), z3.IntVal(0))) for i in range(k)]
+    stores = {}     # param -> [(guard, value)]
+    paths = [(z3.BoolVal(True), entry, list(stack0), 0)]
+    steps = 0
+    done_paths = 0
+    while paths:
+        guard, pc, st, nstored = paths.pop()
+        while True:
+            steps += 1
+            if steps > 4000 or pc >= len(instrs):
+                return 'unknown', 'prologue did not terminate', 0.0, {}
+            if nstored == k:
+                done_paths += 1
+                break
+            ins = instrs[pc]
+            op, arg = ins['op'], ins.get('arg')
+            if op == 'DupTop':
+                st.append(st[-1]); pc += 1
+            elif op == 'IsUndefined':
+                t, v = st.pop()
+                st.append(('bool', v == 0)); pc += 1
+            elif op == 'JumpIfFalse':
+                t, b = st.pop()
+                if t != 'bool':
+                    return 'unknown', 'JumpIfFalse on a non-boolean in the prologue at pc %d' % pc, 0.0, {}
+                paths.append((z3.And(guard, z3.Not(b)), arg, list(st), nstored))
+                guard = z3.And(guard, b); pc += 1
+            elif op == 'DiscardTop':
+                st.pop(); pc += 1
+            elif op == 'LoadConst':
+                st.append(('int', z3.IntVal(vid('const', arg)))); pc += 1
+            elif op == 'Lookup':
+                st.append(('int', z3.IntVal(vid('name', arg)))); pc += 1
+            elif op == 'StoreLocal':
+                t, v = st.pop()
+                if arg in params:
+                    stores.setdefault(arg, []).append((guard, v))
+                    nstored += 1
+                pc += 1
+            else:
+                return 'unknown', 'unexpected instruction %s in a macro prologue at pc %d' % (op, pc), 0.0, {}
+    bad = []
+    for i, p_ in enumerate(params):
+        ed = expected_defaults.get(p_)
+        dflt = z3.IntVal(0) if ed is None else z3.IntVal(vid(ed[0], ed[1]))
+        want = z3.If(provided[i], z3.IntVal(100 + i), dflt)
+        for g, v in stores.get(p_, []):
+            bad.append((p_, z3.And(g, v != want)))
+        if not stores.get(p_):
+            return 'sat', dict(param=p_, note='parameter is never stored'), 0.0, {}
+    s_ = z3.Solver()
+    s_.set('timeout', 30000)
+    s_.add(z3.Or(*[b for _, b in bad]))
+    t0 = time.time()
+    r = s_.check()
+    dt = time.time() - t0
+    info = {}
+    if r == z3.sat:
+        m = s_.model()
+        info = dict(provided={str(d): bool(m[d]) for d in m.decls()},
+                    params=[p_ for p_, b in bad if z3.is_true(m.eval(b, model_completion=True))])
+    return str(r), info, dt, dict(params=k, paths=done_paths, stores=sum(len(v) for v in stores.values()))
